@@ -6,6 +6,8 @@
      call <j> return|exit <v>
      tick <j> <m|c> <label> <val|-> <target|-> <st> <jt|-> <det> <lk>      (P lines, E create.start / free.stack)
      led <alloc.desc|alloc.stack|free.desc> <t> [size]                      (ledger events of thread t)
+     call <j> cancel <t> | testcancel <acted|cont> | setcancel <0|1>     (silent atomic steps, see below)
+     kact <j>                                   the testcancel of j did not return: j takes its exit path (E finish.enter)
      ret <j> <v> <joined|->
      end
    and, for the sequential allocator model,
@@ -49,6 +51,9 @@ let parse_op = function
   | ["detach"; t] -> Detach (ni (int_of_string t))
   | ["return"; v] -> Return (zs v)
   | ["exit"; v] -> Exit (zs v)
+  | ["cancel"; t] -> Cancel (ni (int_of_string t))
+  | "testcancel" :: _ -> TestCancel
+  | ["setcancel"; b] -> SetCancel (b <> "0")
   | l -> failwith ("bad op " ^ Stdlib.String.concat " " l)
 
 let obs_str s t =
@@ -65,6 +70,22 @@ let () =
   let fail msg = if !failed = None then failed := Some (Printf.sprintf "FAIL %d %s" !ln msg) in
   let do_step a = step_cfg !cfg !st a in
   let bump k t = let c = (try Hashtbl.find tally (k, t) with Not_found -> 0) + 1 in Hashtbl.replace tally (k, t) c; c in
+  (* cancellation steps carry no POINT.  The store of a cancel and the read of a testcancel happen somewhere between
+     the call line and the outcome line (return, or the exit path for a testcancel that acts); the driver fires them at
+     the outcome line and, when a cancel and a testcancel of its target overlap, in the order the observed outcome
+     needs (the projection tells the outcome of every testcancel in advance) *)
+  let hint : (int, string) Hashtbl.t = Hashtbl.create 16 in
+  let would_act x = let th = gt !st (ni x) in cancel_enabled th && cancelled th in
+  let fire_k j what =
+    (match do_step (ni j, ETick) with
+     | Some s' -> st := s'; incr sil
+     | None -> fail (Printf.sprintf "%s of t%d not enabled in the model" what j)) in
+  let nthr () = Stdlib.List.length (thr !st) in
+  let pending_cancels x =
+    let r = ref [] in
+    for j = 0 to nthr () - 1 do
+      (match main (gt !st (ni j)) with KCancel t when ino t = x -> r := j :: !r | _ -> ())
+    done; !r in
   let check_led k t size =
     let c = bump k t in
     let g = gh (gt !st (ni t)) in
@@ -84,7 +105,7 @@ let () =
          glob := { g_stacksize = zs ss; g_guardsize = zs "0";
                    g_child_first = (match rest with [_; gcf] -> zs gcf | _ -> zs "1") };
          cfg := (match rest with "prefix_nullid" :: _ -> cfg_prefix_nullid | "prefix_det" :: _ -> cfg_prefix_det | _ -> cfg_now);
-         st := init_state (ni (int_of_string nt)); ln := 0; cnt := 0; sil := 0; failed := None; Hashtbl.reset tally; amode := false
+         st := init_state (ni (int_of_string nt)); ln := 0; cnt := 0; sil := 0; failed := None; Hashtbl.reset tally; Hashtbl.reset hint; amode := false
      | ["end"] -> (match !failed with
                    | Some m -> print_endline m
                    | None -> Printf.printf "ok %d %d%s%s\n" !cnt !sil (if crashed !st then " crashed" else "") (if badwake !st then " badwake" else ""))
@@ -108,13 +129,38 @@ let () =
          (match astep !ast e with
           | Some s' -> ast := s'
           | None -> fail (Printf.sprintf "%s %s not enabled in the allocator model" k t))
+     | ["kact"; j] ->
+         let x = int_of_string j in
+         (match main (gt !st (ni x)) with
+          | KTest ->
+              if not (would_act x) then Stdlib.List.iter (fun c -> if not (would_act x) then fire_k c "cancel") (pending_cancels x);
+              if not (would_act x) then
+                fail (Printf.sprintf "t%d terminates itself at a testcancel, but in the model no cancellation of this incarnation is pending (cancelled=%b enabled=%b request-for-this-incarnation=%b)"
+                        x (cancelled (gt !st (ni x))) (cancel_enabled (gt !st (ni x))) (creq (gh (gt !st (ni x)))))
+              else begin fire_k x "testcancel"; incr cnt end
+          | _ -> fail (Printf.sprintf "t%d takes its exit path out of a testcancel, the model is not in one" x))
      | "call" :: j :: o ->
+         (match o with "testcancel" :: h :: _ -> Hashtbl.replace hint (int_of_string j) h | _ -> ());
          (match do_step (ni (int_of_string j), ECall (parse_op o)) with
           | Some s' -> st := s'; incr cnt;
               if crashed s' then fail (Printf.sprintf "the model executes undefined behaviour at: t%s %s" j (Stdlib.String.concat " " o))
           | None -> fail (Printf.sprintf "call not enabled in the model: t%s %s" j (Stdlib.String.concat " " o)))
      | "ret" :: j :: v :: rest ->
          let jn = ni (int_of_string j) in
+         (match main (gt !st jn) with
+          | KCancel t ->
+              (* a testcancel of the target that will go on must have read the flag before this store *)
+              let x = ino t in
+              (match main (gt !st t) with
+               | KTest when (try Hashtbl.find hint x with Not_found -> "") = "cont" && would_act x = false -> fire_k x "testcancel"
+               | _ -> ());
+              fire_k (int_of_string j) "cancel"
+          | KTest ->
+              if would_act (int_of_string j) then
+                fail (Printf.sprintf "t%s returns from testcancel, but the model has a cancellation of this incarnation pending and enabled: it terminates" j)
+              else fire_k (int_of_string j) "testcancel"
+          | KSet _ -> fire_k (int_of_string j) "setcancelstate"
+          | _ -> ());
          (match joined !st jn, rest with
           | Some mv, x :: _ when x <> "-" && sz mv <> x -> fail (Printf.sprintf "t%s: joined value %s, the model expects %s" j x (sz mv))
           | _ -> ());
